@@ -16,6 +16,34 @@ CHECKS["C15"] = {
             "resize over histories.",
     "note": "extent pairing table (DESIGN A.2) encodes vnadata_internal.h as read; only subscripts indexed directly by a parameter are obligations",
 }
+CHECKS["C03"] = {
+    "technique": "static path-sensitive typestate analysis (state-splitting dataflow over clang CFG) for resource pairing; range-fact dataflow for index guards",
+    "text": "Decides, over every CFG path of all library functions (incl. all error and allocation-failure continuations no test executes), that each local that "
+            "receives an owned resource (malloc/calloc/realloc/strdup/vasprintf/fopen, libyaml parser/emitter/document, solve state, or a library function "
+            "summarised bottom-up as returning an owned object) is released or handed over exactly once before the function exits, and that caller-supplied "
+            "indices are exactly guarded before subscripts. Does not decide absence of all undefined behaviour (overflow, aliasing) nor struct-field ownership.",
+    "note": "interprocedural summaries are optimistic (a callee that may consume an argument is assumed to consume it): missed leaks possible, no false alarms from them",
+}
+CHECKS["C11"] = {
+    "technique": "static failure-discipline dataflow: constant propagation of return values + error-report counting per CFG path with bottom-up callee summaries",
+    "text": "Decides on every return path of every library function: no success value after an error report (own or callee's), no second report on the same error "
+            "channel, no silent failure of a public vnacal_*/vnadata_* function caused by a failed system call, no failure value of a fallible callee dropped "
+            "(overwritten/discarded) and the index returned by add_calibration/make_*_parameter is the slot stored. Does not decide errno text or manual wording.",
+    "note": "report channels and failure constants (-1/NULL/HUGE_VAL) are tables read from vnaerr/vnacal/vnadata internals; documented silent queries are not asserted",
+}
+CHECKS["C16"] = {
+    "technique": "static sibling/slot agreement over clang AST+CFG (returned index = stored slot; vpmr_index pairing; exact slot guards)",
+    "text": "Decides that the index handed back by add/make functions is the slot the object was stored in, that delete clears exactly the validated slot and that "
+            "calibration/parameter slot lookups are exactly range-guarded. Does not decide uniqueness over histories or values of solved parameters.",
+    "note": "slot vectors vc_calibration_vector / vprmc_vector are named in the rule table",
+}
+CHECKS["C19"] = {
+    "technique": "static must-check analysis (reaching definitions + failure dataflow) of every solver result; homogeneity-degree analysis of the LU pivot metric",
+    "text": "Decides that every determinant returned by LU-based solves to calibration code is tested == 0 and every QR rank is tested < unknowns, that the singular "
+            "edge reaches only failure returns with a VNAERR_MATH report (own or every caller's), and that the LU pivot selection metric is invariant under row "
+            "scaling (degree 0). Does not decide backward stability or residual bounds numerically.",
+    "note": "vnaconv_* callers are exempt (documented non-finite output); degree analysis covers _vnacommon_lu only",
+}
 NOT_APPLICABLE = {
     "C14": "YAML fidelity of arbitrary scalars/keys depends on libyaml's emitter/scanner behaviour on run-time strings; no clause is visible in libvna's source shape (DESIGN.md section 3, C14)",
 }
